@@ -2,7 +2,7 @@
 # Builds the framework from files on disk only and warms the Go build cache
 # (plain, instrumented and -race builds, with the same flags check.sh uses).
 set -e
-V=/verif
+V=$(dirname "$(readlink -f "$0")")
 export GOFLAGS=-mod=mod GOPROXY=off GOSUMDB=off GOTOOLCHAIN=local
 mkdir -p $V/bin $V/.work $V/evidence
 cd $V/harness
